@@ -522,6 +522,9 @@ func (x *Run) doSelect(fr *Frame, st *State, ins *ssa.Select, outs *[]Outcome) [
 				s.events = append(s.events, Event{Name: "send", Args: []Val{ch, x.val(fr, s, sst.Send)}})
 			} else {
 				x.interfere(fr, s)
+				if ins.Blocking {
+					closed = x.awaitClosed(s, ch, sst.Chan.Type())
+				}
 				s.assume(implies(not(closed), ok.T))
 				if x.onlyClosedEverSignals(ch, sst.Chan.Type()) {
 					s.assume(closed)
@@ -1196,4 +1199,21 @@ func (x *Run) onlyClosedEverSignals(ch Val, t types.Type) bool {
 	x.opaque["neversent:"+ch.Origin] = true
 	x.mu.Unlock()
 	return true
+}
+
+// awaitClosed: while a goroutine waits in a blocking receive, others run and
+// may close the awaited channel: whatever the path knew about "not closed yet"
+// (e.g. from the default branch of an earlier select) no longer holds when the
+// receive completes. A closed channel stays closed; a channel nobody ever
+// closes stays open. Returns the closed flag of ch after the wait.
+func (x *Run) awaitClosed(st *State, ch Val, t types.Type) string {
+	name := x.chClosedFor(ch, t)
+	old := sel(x.arr(st, name), ch.T)
+	if ct, ok := types.Unalias(t).Underlying().(*types.Chan); ok && x.closable != nil && ch.Origin != "" && !x.closable[typeKey(ct.Elem())] && !x.closable["field:"+ch.Origin] && !x.libFieldArr[ch.Origin] {
+		return old
+	}
+	c := x.freshVal(st, "closednow", types.Typ[types.Bool])
+	st.assume(implies(old, c.T))
+	x.setArr(st, name, fmt.Sprintf("(store %s %s %s)", x.arr(st, name), ch.T, c.T))
+	return c.T
 }
